@@ -50,7 +50,7 @@ theorem joinC_head (S : List Char) (c : Char) (cs : List Char) (ps : List (List 
   | nil => exact ⟨cs, rfl⟩
   | cons q qs => exact ⟨cs ++ S ++ joinC S (q :: qs), by simp [joinC]⟩
 
-theorem strip_ends (l : List Char) (c : Char) (cs : List Char) (hl : l = c :: cs) (hc : isSpace c = false)
+theorem vtext_strip_ends (l : List Char) (c : Char) (cs : List Char) (hl : l = c :: cs) (hc : isSpace c = false)
     (d : Char) (hd : l.getLast? = some d) (hds : isSpace d = false) : VParser.strip l = l := by
   unfold VParser.strip
   rw [hl, dropSpaces_of_head c cs hc, ← hl]
@@ -86,7 +86,7 @@ theorem parseConstraintAux_split (b : Bool) (g : List Char) (gs : List (List Cha
     obtain ⟨d, h1, h2, _⟩ := (hg q hq).getLast
     exact ⟨d, h1, h2⟩)
   have hstrip : VParser.strip (joinC barSep (g :: gs)) = joinC barSep (g :: gs) :=
-    strip_ends _ c r (by rw [hgc, hr]) hcs dl hdl hdls
+    vtext_strip_ends _ c r (by rw [hgc, hr]) hcs dl hdl hdls
   have hor : Generic.reSplit Generic.sepOr (joinC barSep (g :: gs)) = g :: gs :=
     reSplit_join Generic.sepOr barSep (by simp [barSep]) (fun c cs h => sepOr_bars c cs h) g gs (by
       intro q hq
